@@ -90,7 +90,10 @@ PROPS = {
         'assumptions': COMMON_ASSUME + ['committee totals < 2^64', 'the consumer\'s ValidateBlockProposal / ValidateBlockCommitment only accept blocks whose height is the height being decided (then the committed block has the term\'s height)', 'all State writes and callbacks happen on the worker goroutine (checked structurally by the runtime engine, not by the theorem)'],
     },
     'C14': {
-        'engines': [RUNTIME, {'name': 'world', 'quick_args': ['-n', '70'], 'thorough_args': ['-n', '1200']}],
+        'engines': [RUNTIME, {'name': 'world', 'quick_args': ['-n', '70'], 'thorough_args': ['-n', '1200']}, {'name': 'registry'}],
+        # a sync takes effect because the registry refuses contexts for what the sync superseded (Loops.v uses the Contexts.v
+        # registry): a broken registry law is reported here too
+        'also_report': ('C15',),
         'corr_modules': ['Term'],
         'trusted_base': ['theorems in coq/props/C14.v about coq/theories/Loops.v (proofs in LoopsFacts.v), Contexts.v and Term.v (start_term)'],
         'assumptions': COMMON_ASSUME + ['the Go scheduler eventually runs an enabled step of each goroutine and select eventually picks a ready case (the theorems give enabledness and the state after the step; the runtime engine observes that accepted syncs do take effect)',
